@@ -127,6 +127,24 @@ class SimOtherError(Exception):
     pass
 
 
-EXCS = {"ValueError": ValueError, "KeyError": KeyError, "RuntimeError": RuntimeError,
+class SimApiError(Exception):
+    """Shaped like many SDK errors: the constructor takes (status, body) while .args holds the formatted message, so
+    copy.deepcopy / pickle cannot rebuild an instance (cls(*args) raises TypeError)."""
+
+    def __init__(self, status: int, body: str) -> None:
+        super().__init__(f"{status}: {body}")
+        self.status, self.body = status, body
+
+    @classmethod
+    def from_msg(cls, msg: str) -> "SimApiError":
+        return cls(503, msg)
+
+
+def make_exc(name: str, msg: str) -> BaseException:
+    cls = EXCS[name]
+    return cls.from_msg(msg) if hasattr(cls, "from_msg") else cls(msg)
+
+
+EXCS = {"SimApiError": SimApiError, "ValueError": ValueError, "KeyError": KeyError, "RuntimeError": RuntimeError,
         "SimStepError": SimStepError, "SimOtherError": SimOtherError,
         "TimeoutError": TimeoutError}
